@@ -15,6 +15,38 @@ CHECKS = {
    technique="bounded-exhaustive enumeration + seeded random generation + libFuzzer; oracle = structural invariants of the wire payload, reference receiver, differential against qmail-smtpd's decoder",
    text="qmail-remote.c blast() runs in-process on ALL messages over {CR,LF,'.','x'} up to length 12 (14), every chunking of file reads up to length 9 (10), random long messages around the 1024-byte buffer, injected read errors, and libFuzzer. Oracle: CRLF.CRLF exactly once as suffix, no bare LF, reference receiver and qmail-smtpd both consume exactly the payload and return the message's lines, CR-free messages byte-identical, partial final line => D, read error => Z.",
    note="Exhaustive only up to the stated length; bare CR in a queued message is taken as a line break (as the shipped test_blast_barecr fixes). Found and fixed F1 (fix: commit 024fda4)."),
+ "C02": dict(cat="exploration", design="5/C02", engine="gate-mode scheduler (vshim VSHIM_GATE + lib/gate.py) around the real qmail-queue/qmail-send/qmail-clean",
+   technique="property-based testing over generated schedules (Hypothesis decision tapes) plus a systematic depth-first schedule prefix; invariant checked after every granted system call",
+   text="Every queue-relevant system call of 1-3 real injectors, the real daemon, its cleaner and the daemon's own bounce injector is granted one at a time by a scheduler; after every granted step the whole queue is compared with the S1-S5 table of INTERNALS.md (plus inode = name, directory = n mod split), every link/unlink is checked against the documented order before it runs, leftovers aged 36h +-{90s,1h} test the GC rule, a second daemon must exit 111 without mutating anything, optional crash of any role before its k-th mutating call followed by restart.",
+   note="Interleavings at system-call granularity of gated calls only; schedules are sampled (Hypothesis tapes) except for a depth-first prefix of the 1 injector x daemon world; crash = process group killed at a call boundary."),
+ "C03": dict(cat="fault_enumeration", design="5/C03", engine="driven world (lib/qworld.py, lib/qhistory.py): real qmail-send + qmail-clean + qmail-queue, driver plays both spawners and the clock",
+   technique="model-based property testing (Hypothesis histories with a decision tape) against a ledger of obligations, with crash-point and single-fault enumeration over each history's own syscall trace",
+   text="The real daemon runs under a driven select(): every quiescent point is a decision point (answer any outstanding attempt with K/Z/D/garbled/empty, inject, HUP/ALRM/TERM+restart, spawner death, hostile reports, clock steps). A ledger checks: marks only after K/D (or Z past lifetime), no record list shrinks, a message leaves only when every recipient got a final report, every permanent failure is named in a queued bounce (or documented discard), custody files present, bounded drain. Four base scenarios are swept over ALL crash points (images kept/lost) and ALL fault sites in every run; generated histories get a strided selection (all in thorough).",
+   note="One action per quiescent point; signals only at quiescent points; crash at call boundaries; lost image = files reverted to last fsync; liveness as a bound on quiescent points."),
+ "C04": dict(cat="exploration", design="5/C04", engine="driven world",
+   technique="model-based property testing (Hypothesis histories) with crash points (image kept) from the history's trace; oracle over commands, reports and record marks",
+   text="Histories with concurrency settings {0,1,2,3,255,1000} x announced limits {0,1,2,120,255}, up to 12 recipients incl. duplicates, TERM+restart and crashes: outstanding attempts per (message, channel, address) never exceed unmarked records, per-channel outstanding <= min(configured, announced), delivery numbers distinct/in range, nothing after TERM, exit 0 only when idle, exactly one final attempt per recipient in crash-free histories, every final report is reflected by a mark.",
+   note="Marks are observed at quiescent points; crash images restricted to 'kept' (a lost mark legitimately causes a re-attempt)."),
+ "C10": dict(cat="exploration", design="5/C10", engine="driven world (preprocessing only) + independent routing model",
+   technique="property-based testing (Hypothesis configurations and recipients) against a reference model of qmail-send.9/addresses.5",
+   text="Generated locals/virtualdomains/percenthack/envnoathost files (comments, case, trailing blanks, all entry kinds) and 1-12 recipients with near misses are injected with the real qmail-queue and preprocessed by the real qmail-send; the records of local/<n> and remote/<n> (order, channel, spelling) and the VERP sender of every delivery command must equal the model; second phase rewrites the files, sends HUP and injects again.",
+   note="Duplicate control-file keys are outside the domain; multi-@ addresses on which the percent hack fires are only checked for conservation (slack). The in-process volume run of rewrite() named in the design is not built; C20's send target fuzzes rewrite() for memory safety only."),
+ "C14": dict(cat="exploration", design="5/C14", engine="driven world + bounce parser",
+   technique="model-based property testing (Hypothesis histories of failing recipients) with a structural parser of every daemon-queued notice",
+   text="Failing recipients in generated combinations/orders (permanent, or temporary past queuelifetime), hostile failure texts (blank lines, forged '<victim>:' paragraphs, the copy marker, 8-bit, 12 kB), all sender forms, generated bounce* control files; the chain bounce -> double bounce -> discard runs through the real queue. Each notice is parsed: envelope, From/To, exactly one paragraph per failed recipient with the prepend removed and newlines mapped, text equal modulo documented squashing, marker, Return-Path, byte-identical original.",
+   note="Order of failures = order of reports (one report per quiescent point). Oversized reports: the cut point +-1 byte is slack."),
+ "C15": dict(cat="exploration", design="5/C15", engine="in-process qmail-send.c/prioq.c harness + driven world with virtual clock",
+   technique="bounded-exhaustive enumeration (square root neighbourhoods / all 2^32 in thorough, prioq sequences <= 9) + seeded random + model-based daemon histories",
+   text="Layer 1: squareroot() against r^2<=x<(r+1)^2 in 128-bit integers, nextretry() grid. Layer 2: prioq against a sorted multiset incl. allocation failure. Layer 3: real daemon under a frozen virtual clock: no pass before birth+(isqrt(age)+10|20)^2, retry strictly in the future, due messages attempted before blocking, schedule survives TERM/restart, ALRM, expiry after queuelifetime turns Z into a bounce with the documented sentence, bounded drain.",
+   note="Exhaustive for the arithmetic only in the thorough tier (all 2^32 ages); daemon layer samples histories. Retry time of a pass that had to block for a slot is only bounded, not exact."),
+ "C16": dict(cat="exploration", design="5/C16", engine="gate-mode scheduler (systematic) + driven world (timeouts)",
+   technique="systematic schedule enumeration (stateless depth-first search over the scheduler's decision tape, real programs executed) + property-based histories for the timeout oracle",
+   text="Part A enumerates ALL interleavings (up to a fairness bound of 14) of qmail-queue's {link todo, open/write/close trigger} with qmail-send's {close/open trigger, opendir, readdir.., open todo, select} for an idle daemon + 1 injector and a daemon woken by a stray pull + 1 injector (both complete in the quick tier), and a depth-first prefix + random tapes for 2 injectors: after the last injector exits 0 the daemon must not sleep with a positive timeout while the todo entry exists. Part B: every quiescent point of C15/C03-style histories: timeout > 0, <= earliest due + 1, no spinning (interposer counts idle selects).",
+   note="Granularity = interposed calls on todo/ and lock/trigger; qmail-clean ungated; 2-injector world not exhausted in quick."),
+ "C20": dict(cat="exploration", design="5/C20", engine="16 libFuzzer targets (ASan+UBSan) built from the scratch tree",
+   technique="coverage-guided fuzzing (libFuzzer) with structure-aware decode layers; oracle = no sanitizer report, documented termination",
+   text="One libFuzzer target per untrusted-input surface (smtpd, qmtpd, qmqpd, token822, inject, dns, remote, spawn, control/constmap, cdb, local, received, pop3d, popup, stralloc/substdio/getln, send), library objects built with sanitizers too, regression corpus first, every crash artefact re-run 3x before it counts.",
+   note="distinct_nontrivial = corpus units that reached the parsers (measured proxy). Small over-reads inside stralloc slack are invisible to ASan unless the harness hands exact-size copies (done for cdb keys, child output, dns answers). Found F7 (dns.c over-read), fixed by 2d89f0c."),
 }
 NOT_YET = {}
 def main():
